@@ -716,6 +716,23 @@ def install(root, mounts, uid, plan, logfd):
             psutil.disk_partitions = disk_partitions
         except ImportError:
             pass
+    if plan.get('short_io'):
+        # sendfile(2) / copy_file_range(2) may transfer less than asked for
+        # (they do for counts above 2 GiB): the count returned is what counts
+        _n = int(plan['short_io'])
+        for _nm in ('sendfile', 'copy_file_range'):
+            _prev = getattr(os, _nm, None)
+            if _prev is None:
+                continue
+
+            def _short(a0, a1, a2, a3=None, *rest, __prev=_prev, __nm=_nm, **kw):
+                if __nm == 'sendfile':
+                    # sendfile(out_fd, in_fd, offset, count)
+                    return __prev(a0, a1, a2, min(int(a3), _n), *rest, **kw)
+                # copy_file_range(src, dst, count, ...)
+                return __prev(a0, a1, min(int(a2), _n),
+                              *(() if a3 is None else (a3,)), *rest, **kw)
+            setattr(os, _nm, _short)
     if plan.get('ro_volumes'):
         # volumes mounted read-only as statvfs() reports it (ST_RDONLY); the
         # unchanged commands never ask
